@@ -126,7 +126,9 @@ func path(v ssa.Value, d int) string {
 	case *ssa.SliceToArrayPointer:
 		return path(x.X, d+1)
 	case *ssa.BinOp:
-		return "(" + path(x.X, d+1) + x.Op.String() + path(x.Y, d+1) + ")"
+		// arithmetic in an integer type narrower than 64 bits wraps where the same expression
+		// in int does not: int(k)+1 and int(k+1) must not get the same path
+		return "(" + path(x.X, d+1) + x.Op.String() + path(x.Y, d+1) + ")" + narrowArith(x)
 	case *ssa.Alloc:
 		if x.Comment != "" {
 			return "&local:" + x.Comment
@@ -175,6 +177,25 @@ func path(v ssa.Value, d int) string {
 }
 
 func shortQual(p *types.Package) string { return p.Name() }
+
+// narrowArith returns "@<type>" for +, -, * and << computed in a sized integer type of fewer
+// than 64 bits, "" otherwise.
+func narrowArith(x *ssa.BinOp) string {
+	switch x.Op {
+	case token.ADD, token.SUB, token.MUL, token.SHL:
+	default:
+		return ""
+	}
+	b, ok := x.Type().Underlying().(*types.Basic)
+	if !ok {
+		return ""
+	}
+	switch b.Kind() {
+	case types.Int8, types.Int16, types.Int32, types.Uint8, types.Uint16, types.Uint32:
+		return "@" + b.Name()
+	}
+	return ""
+}
 
 // uniqueStore returns the value stored into a local when the local is
 // written by exactly one whole-value store and is otherwise only loaded from
